@@ -4,6 +4,8 @@ import (
 	"container/heap"
 	"fmt"
 	publictypes "lunar/engine/streams/public-types"
+	"lunar/toolkit-core/verifhook"
+	"strconv"
 	"sync"
 	"time"
 
@@ -39,6 +41,7 @@ func (q *memoryQueue) Enqueue(item string, priority float64) error {
 		score:     calculateScore(priority),
 		timestamp: time.Now().UnixNano(),
 	})
+	verifhook.Event("mq.push", item, strconv.FormatInt(q.queue[len(q.queue)-1].timestamp, 10))
 	return nil
 }
 
